@@ -263,11 +263,13 @@ func (c *Cluster) RefreshPVCs() {
 
 // RefreshPod brings one pod's cache entry up to date. With notify, the matching add / update /
 // delete notification is delivered through the handlers the controller registered.
-func (c *Cluster) RefreshPod(ns, name string, notify bool) {
+func (c *Cluster) RefreshPod(ns, name string, notify bool) (changed bool) {
 	key := ns + "/" + name
 	oldI, had, _ := c.podIdx().GetByKey(key)
 	cur := c.Pod(ns, name)
 	switch {
+	case cur == nil && !had:
+		return false
 	case cur == nil && had:
 		c.podIdx().Delete(oldI)
 		if notify {
@@ -285,7 +287,7 @@ func (c *Cluster) RefreshPod(ns, name string, notify bool) {
 	case cur != nil && had:
 		old := oldI.(*corev1.Pod)
 		if old.ResourceVersion == cur.ResourceVersion && old.UID == cur.UID {
-			return
+			return false
 		}
 		c.podIdx().Update(cur)
 		if notify {
@@ -299,13 +301,16 @@ func (c *Cluster) RefreshPod(ns, name string, notify bool) {
 			}
 		}
 	}
+	return true
 }
 
-func (c *Cluster) RefreshSet(ns, name string, notify bool) {
+func (c *Cluster) RefreshSet(ns, name string, notify bool) (changed bool) {
 	key := ns + "/" + name
 	oldI, had, _ := c.setIdx().GetByKey(key)
 	cur := c.Set(ns, name)
 	switch {
+	case cur == nil && !had:
+		return false
 	case cur == nil && had:
 		c.setIdx().Delete(oldI)
 		if notify {
@@ -323,7 +328,7 @@ func (c *Cluster) RefreshSet(ns, name string, notify bool) {
 	case cur != nil && had:
 		old := oldI.(*asv1.StatefulSet)
 		if old.ResourceVersion == cur.ResourceVersion && old.UID == cur.UID {
-			return
+			return false
 		}
 		c.setIdx().Update(cur)
 		if notify {
@@ -332,6 +337,7 @@ func (c *Cluster) RefreshSet(ns, name string, notify bool) {
 			}
 		}
 	}
+	return true
 }
 
 func (c *Cluster) RefreshPVC(ns, name string) {
@@ -556,7 +562,7 @@ func splitKey(key string) (string, string) {
 
 // Reconcile runs one real reconcile of key against the current caches and records everything.
 func (c *Cluster) Reconcile(key string) *Record {
-	return c.reconcile(key, false)
+	return c.reconcile(key, 0)
 }
 
 // ReconcileWorker runs the reconcile through one real worker step (dequeue, sync, then
@@ -564,8 +570,39 @@ func (c *Cluster) Reconcile(key string) *Record {
 // swallowed is recovered from the error handler. ReAdded reports whether the key came back into the
 // queue after a failure (waited for with a generous deadline; the backoff is 5ms).
 func (c *Cluster) ReconcileWorker(key string) *Record {
-	return c.reconcile(key, true)
+	return c.reconcile(key, 1)
 }
+
+// QueueLen is the number of keys waiting in the controller's work queue.
+func (c *Cluster) QueueLen() int { return c.r.ctrl.VerifQueue().Len() }
+
+// ReconcileNextQueued lets the real worker process the next queued key (whatever the event handlers
+// put there) and records that reconcile; nil when the queue is empty. A failed reconcile is put back by
+// the worker with (fast) backoff; the call waits briefly for that re-add so that the caller sees it.
+func (c *Cluster) ReconcileNextQueued() *Record {
+	q := c.r.ctrl.VerifQueue()
+	if q.Len() == 0 {
+		return nil
+	}
+	k, _ := q.Get()
+	key := k.(string)
+	q.Done(k)
+	q.Add(key) // back to the head of an (otherwise unchanged) queue: the worker takes it next
+	rec := c.reconcile(key, 2)
+	if rec.Requeues > 0 {
+		deadline := time.Now().Add(2 * time.Second)
+		for q.Len() == 0 && time.Now().Before(deadline) {
+			time.Sleep(50 * time.Microsecond)
+		}
+	}
+	return rec
+}
+
+// DrainQueue forgets every queued key (the events behind them are considered served).
+func (c *Cluster) DrainQueue() { c.drainQueue() }
+
+// Enqueue puts key into the controller's work queue (the initial list of a starting controller).
+func (c *Cluster) Enqueue(key string) { c.r.ctrl.VerifQueue().Add(key) }
 
 func (c *Cluster) drainQueue() {
 	q := c.r.ctrl.VerifQueue()
@@ -575,7 +612,10 @@ func (c *Cluster) drainQueue() {
 	}
 }
 
-func (c *Cluster) reconcile(key string, viaWorker bool) *Record {
+// mode: 0 direct call of sync, 1 one isolated worker step (queue drained first, re-add awaited and
+// drained afterwards), 2 one worker step on the queue as it is (the key must be the next item)
+func (c *Cluster) reconcile(key string, mode int) *Record {
+	viaWorker := mode != 0
 	ns, name := splitKey(key)
 	rec := &Record{Key: key, ListPerm: c.ListPerm}
 	if s := c.CacheSet(ns, name); s != nil {
@@ -615,13 +655,23 @@ func (c *Cluster) reconcile(key string, viaWorker bool) *Record {
 			return
 		}
 		q := c.r.ctrl.VerifQueue()
-		c.drainQueue()
-		q.Forget(key)
+		rec.ViaWorker = true
 		handledMu.Lock()
 		lastHandled = nil
 		handledMu.Unlock()
+		if mode == 2 {
+			c.r.ctrl.VerifProcessNextWorkItem()
+			rec.Requeues = q.NumRequeues(key)
+			handledMu.Lock()
+			if lastHandled != nil && strings.Contains(lastHandled.Error(), "requeuing") {
+				rec.Err = lastHandled
+			}
+			handledMu.Unlock()
+			return
+		}
+		c.drainQueue()
+		q.Forget(key)
 		q.Add(key)
-		rec.ViaWorker = true
 		defer func() {
 			// also after a simulated crash: leave no delayed re-add behind
 			rec.Requeues = q.NumRequeues(key)
